@@ -112,6 +112,8 @@ def run(tier):
                 sc = delta.Scenario("p%d" % len(scs), wd, B4, T4, sources=[A4], limit=limit, frag=frag, round_opts=ro, rounds=20,
                                     name="one-byte chunks, limit %d, frag %d, %s" % (limit, frag, "every response good" if not ro else "bad responses first: %s" % ro))
                 sc.must = True
+                sc.stocktake = (len(scs) % 2 == 1)        # every second one: a validity scan between the requests
+                if sc.stocktake: sc.name += ", a validity scan between the requests"
                 sc.write_files(); scs.append(sc)
     nproc = 12
     parts = ["".join(s.script() for s in scs[i::nproc]) for i in range(nproc)]
